@@ -5,6 +5,9 @@ From WP Require Import hcobs.Stuffing hcobs.Dec iovec.Geo hcobs.GeoDec run.RunGe
 Import ListNotations.
 Open Scope N_scope.
 
+(* long byte strings are printed as [length, sum of (b+1), sum of (i+1)(b+1)] *)
+Definition dig3 (bs : list N) : list Z := let '(n, s1, s2) := digest bs 0 0 0 in [zn n; zn s1; zn s2].
+
 Inductive yop := YOp (o : gdop) | YFin.
 
 (* (tag, remaining / first header byte, flag) as DecoderState::verif_state reports it *)
@@ -39,13 +42,13 @@ Fixpoint yrun (mi ms : nat) (st : option dstate) (h : heap) (g : option giov) (o
                        | Some (g', n) => [1%Z; zn n] :: obs_all None h (Some g') ++ yrun mi ms None h (Some g') r
                        | None => [[99%Z]] end
       | GDRd n => match read h n g0 with
-                  | Some (g', bs) => (1%Z :: map zn bs) :: obs_all None h (Some g') ++ yrun mi ms None h (Some g') r
+                  | Some (g', bs) => (1%Z :: dig3 bs) :: obs_all None h (Some g') ++ yrun mi ms None h (Some g') r
                   | None => [[99%Z]] end
       | _ => [[99%Z]]
       end
     | Some st0 => match gd_step mi ms st0 h g0 o with
                   | None => [[99%Z]]
-                  | Some (st', h', g', ret) => (1%Z :: map zn ret) :: obs_all (Some st') h' (Some g') ++ yrun mi ms (Some st') h' (Some g') r
+                  | Some (st', h', g', ret) => (1%Z :: match o with GDRd _ => dig3 ret | _ => map zn ret end) :: obs_all (Some st') h' (Some g') ++ yrun mi ms (Some st') h' (Some g') r
                   end
     end
   end.
